@@ -37,7 +37,7 @@ IsWrite(lab) ==
 
 \* ids named by a manifest or hook of any revision of the ledger, or of chart c
 NamedIn(st) == UNION {(DOMAIN st[r].man) \cup (DOMAIN st[r].hooks) : r \in Revs(st)}
-NamedByChart(c) == IF c \in ChartIds THEN (DOMAIN ChartMan(c)) \cup (DOMAIN ChartHooks(c)) ELSE {}
+NamedByChart(c) == IF c \in ChartIds THEN (DOMAIN ChartMan(c)) \cup (DOMAIN ChartHooks(c)) \cup Range(ChartCRDs(c)) ELSE {}
 HookIdsIn(st) == UNION {DOMAIN st[r].hooks : r \in Revs(st)}
 
 -----------------------------------------------------------------------------
